@@ -6,6 +6,8 @@
     reset | add <id> | del <ids> | create <g> <id|$> | destroy <g> | setid <g> <id|$>
     createc <g> <c> | delc <g> <c> | read <g> <c> <>|id> <count|-> <noack 0|1> | ack <g> <ids>
     bad <kind> <g>   (malformed command at handler level: refused, nothing changes)
+    mread <g> <c> <count|-> <noack> <nogroup|wrongtype|badid>   (XREADGROUP STREAMS <this> <failing second stream>)
+    names 100 / 101 = the two distinct non-UTF-8 names g\xff / g\xfe (c\xff / c\xfe); 199 = their lossy image
     tnow <ms> | pidle <g> <id> | claim <g> <c> <0|huge|ms> <force 0|1> <ids> | autoclaim <g> <c> <0|huge> <start> <count>
     pending <g> | prange <g> <start|-> <end|+> <count> <c|->
   answered by the `Code` model as  `<reply> ;; S <stream ids> ;; G <g> <last> <byid> <byc> <cons> <total> <min> <max> ;; …`
@@ -40,7 +42,7 @@ def showEntries (l : List (Id × Name × Nat)) : String :=
   joinOrDot (l.map fun e => s!"{showId e.1}:{e.2.1}:{e.2.2}")
 
 def showReply : Reply → String
-  | .ok => "ok" | .busy => "busy" | .nogroup => "nogroup" | .err => "err" | .panic => "panic"
+  | .ok => "ok" | .busy => "busy" | .nogroup => "nogroup" | .err => "err" | .panic => "panic" | .refused => "refused"
   | .num n => toString n
   | .ids l => showIds l
   | .next n l => s!"{showId n} {showIds l}"
@@ -62,7 +64,10 @@ def showSt (r : Reply) (s : St) : String := showStWith (showReply r) s
 /-! ### parsing (malformed requests are rejected, never defaulted) -/
 
 def num (s : String) : Option Nat :=
-  if s.isEmpty || s.length > 18 || !s.all Char.isDigit then none else s.toNat?
+  if s.isEmpty || s.length > 20 || !s.all Char.isDigit then none
+  else match s.toNat? with
+    | some n => if n < 18446744073709551616 then some n else none
+    | none => none
 
 def parseId (s : String) : Option Id :=
   match s.splitOn "-" with
@@ -117,7 +122,7 @@ def parseGroup : List String → Option (Name × Group)
 def eligOf (idle : Nat) (force : Bool) : Bool := idle == 0 || force
 
 /-- the group operations (everything except create/destroy and the stream operations) -/
-def parseGOp (s : St) : List String → Option (Name × GOp)
+def parseGOp (s : St) (frmOf : Id → Option Id) : List String → Option (Name × GOp)
   | ["setid", g, id] => do
     let g ← num g
     let id ← if id == "$" then some s.dollar else parseId id
@@ -125,7 +130,7 @@ def parseGOp (s : St) : List String → Option (Name × GOp)
   | ["createc", g, c] => do pure ((← num g), .createc (← num c))
   | ["delc", g, c] => do pure ((← num g), .delc (← num c))
   | ["read", g, c, frm, count, noack] => do
-    let frm ← if frm == ">" then some none else (parseId frm).map some
+    let frm ← if frm == ">" then some none else (parseId frm).map frmOf
     let count ← if count == "-" then some none else (num count).map some
     pure ((← num g), .read (← num c) frm count (← parseBool noack))
   | ["ack", g, ids] => do pure ((← num g), .ack (← parseIds ids))
@@ -219,7 +224,8 @@ def judge (s0 : St) (secs : List (List String)) : String :=
           | none, none, ["0"] => "ok"
           | _, _, _ => "fail reply"
         | _ =>
-          match parseGOp s opw, pre, post with
+          -- the oracle reads an explicit id as what it says (history after it), whatever the handler makes of it
+          match parseGOp s some opw, pre, post with
           | some (_, op), some (_, g), some (_, g') =>
             match parseReplyFor op replyw with
             | some reply => judgeG stream g op reply g'
@@ -247,12 +253,32 @@ structure DState where
 
 def timesOf (d : DState) (g : Name) : Code.Times := (alGet g d.times).getD []
 
-def step (d : DState) (ws : List String) : DState × String :=
+/-- positions of the group and consumer names in a request -/
+def namePositions (ws : List String) : List Nat :=
   match ws with
-  | ["quirks", a, b, c, e, f, g] =>
-    match parseBool a, parseBool b, parseBool c, parseBool e, parseBool f, parseBool g with
-    | some a, some b, some c, some e, some f, some g => ({ d with q := ⟨a, b, c, e, f, g⟩ }, "ok")
-    | _, _, _, _, _, _ => (d, "bad-op")
+  | "bad" :: _ => [2]
+  | "createc" :: _ | "delc" :: _ | "read" :: _ | "claim" :: _ | "autoclaim" :: _ | "mread" :: _ => [1, 2]
+  | "prange" :: _ => [1, 5]
+  | "reset" :: _ | "add" :: _ | "del" :: _ | "quirks" :: _ | "tnow" :: _ | "judge" :: _ => []
+  | _ => [1]
+
+def usesBinaryName (ws : List String) : Bool :=
+  (namePositions ws).any fun i => match ws[i]? with
+    | some w => (num w).any Code.isBinaryName
+    | none => false
+
+/-- the request as the handlers see it on the pinned tree: binary names replaced by what the lossy conversion stores -/
+def lossyWords (ws : List String) : List String :=
+  let ps := namePositions ws
+  ws.zipIdx.map fun (w, i) =>
+    if ps.contains i then (match num w with | some n => toString (Code.lossyName n) | none => w) else w
+
+def step0 (d : DState) (ws : List String) : DState × String :=
+  match ws with
+  | "quirks" :: flags =>
+    match flags.mapM parseBool with
+    | some [a, b, c, e, f, g, h, i, j] => ({ d with q := ⟨a, b, c, e, f, g, h, i, j⟩ }, "ok")
+    | _ => (d, "bad-op")
   | ["bad", kind, g] =>
     -- a malformed / refused administration command (handler level): it is refused and changes nothing
     match num g with
@@ -305,8 +331,23 @@ def step (d : DState) (ws : List String) : DState × String :=
         | some _ => (d, showStWith (toString (d.clock - Code.lastOf (timesOf d g) id)) d.s)
         | none => (d, showStWith "-" d.s)
     | _, _ => (d, "bad-op")
+  | ["mread", g, c, count, noack, kind] =>
+    -- XREADGROUP over two streams whose second one fails
+    match num g, num c, (if count == "-" then some none else (num count).map some), parseBool noack,
+          ["nogroup", "wrongtype", "badid"].contains kind with
+    | some g, some c, some count, some noack, true =>
+      match alGet g d.s.groups with
+      | none => (d, showSt .refused d.s)
+      | some grp =>
+        let r := Code.multiReadFailing d.q d.s.stream grp c count noack
+        let s' := { d.s with groups := alSet g r.1 d.s.groups }
+        let delivered := if d.q.multiFix then [] else (Code.readGroup d.q d.s.stream grp c none count noack).2
+        let times := if !noack && !delivered.isEmpty then alSet g (Code.stamp (timesOf d g) delivered d.clock) d.times
+                     else d.times
+        ({ d with s := s', times := times }, showSt r.2 s')
+    | _, _, _, _, _ => (d, "bad-op")
   | _ =>
-    match parseGOp d.s ws with
+    match parseGOp d.s (Code.explicitFrom d.q) ws with
     | some (g, op) =>
       let r := St.gop d.q d.s g op
       -- deliveries into the PEL stamp the delivered rows with the clock
@@ -317,6 +358,16 @@ def step (d : DState) (ws : List String) : DState × String :=
         | _, _ => d.times
       ({ d with s := r.1, times := times }, showSt r.2 r.1)
     | none => (d, "bad-op")
+
+/-- names first: binary names are refused by the repaired tree and merged by the pinned one -/
+def step (d : DState) (ws : List String) : DState × String :=
+  if usesBinaryName ws then
+    if d.q.nameFix then
+      -- refused, nothing changes (the request must still be well-formed)
+      let r := step0 d (lossyWords ws)
+      if r.2 == "bad-op" then (d, "bad-op") else (d, showStWith "refused" d.s)
+    else step0 d (lossyWords ws)
+  else step0 d ws
 
 def main : IO Unit := loop step { q := Quirks.pinned, s := St.empty }
 
